@@ -61,6 +61,7 @@ type Options struct {
 	LockBalance  bool
 	Covers       bool
 	AutoInline   int  // depth of automatic inlining of uncontracted in-repo callees
+	RecvNonNil   bool // method receivers of pointer type are non-nil (caller obligation)
 	JSONShape    bool // assume json.Unmarshal shape for interface{} values (see DESIGN 3.4)
 	MaxTerms     int
 }
@@ -99,6 +100,7 @@ type Ctx struct {
 	frameSeq    int
 	implTypes   map[string]types.Type
 	topFrame    *frame
+	useHashable bool
 }
 
 func NewCtx(w *World, fn *ssa.Function, opt Options) *Ctx {
